@@ -30,6 +30,9 @@ struct Caller {
 #[derive(Clone, Debug)]
 struct SeqStep {
     gap_us: u64,
+    /// extra sub-millisecond part of the gap (the paused clock is advanced by hand: timers only
+    /// have millisecond resolution)
+    sub_us: u64,
     burst: u32,
 }
 
@@ -73,7 +76,8 @@ pub fn gen(rng: &mut Prng) -> Cfg {
         for _ in 0..steps {
             let gap = *rng.pick(&[0, 1000, p / 2, p - 1000, p, p + 1000, 2 * p - 1000, 2 * p, 2 * p + 1000, 3 * p]);
             let burst = rng.range(1, (l as u64 + 2).min(8)) as u32;
-            seq.push(SeqStep { gap_us: gap, burst });
+            let sub_us = if rng.chance(0.3) { *rng.pick(&[100u64, 400, 600, 900]) } else { 0 };
+            seq.push(SeqStep { gap_us: gap, sub_us, burst });
         }
     } else {
         let n = if preset == "default" { rng.range(48, 56) } else { rng.range(1, 16) };
@@ -145,6 +149,9 @@ pub fn run(cfg: &Cfg, seed: u64) -> (std::sync::Arc<crate::world::World>, crate:
                     for st in steps {
                         if st.gap_us > 0 {
                             tokio::time::sleep(Duration::from_micros(st.gap_us)).await;
+                        }
+                        if st.sub_us > 0 {
+                            tokio::time::advance(Duration::from_micros(st.sub_us)).await;
                         }
                         let mut futs = vec![];
                         for _ in 0..st.burst {
@@ -311,7 +318,7 @@ pub fn judge(which: &str, cfg: &Cfg, log: &[Rec]) -> Report {
                 i.enters.push(r.t);
                 if which == "C15" {
                     if let Some(fp) = i.first_poll {
-                        let bound = fp + to + if cfg.win == Win::Counter { 999 } else { 0 };
+                        let bound = fp + to + if fp % 1000 != 0 { 1000 } else if cfg.win == Win::Counter { 999 } else { 0 };
                         if r.t > bound {
                             rep.violate(format!("C15:{wname}:admitted-after-timeout"), format!("r{req} arrived t={fp}us, timeout {to}us, admitted at t={}us", r.t));
                         }
@@ -339,7 +346,7 @@ pub fn judge(which: &str, cfg: &Cfg, log: &[Rec]) -> Report {
                                 rep.violate(format!("C15:{wname}:rejected-reached-inner"), format!("r{req} was rejected but had reached the inner service"));
                             }
                             if let Some(fp) = i.first_poll {
-                                let bound = fp + to + if cfg.win == Win::Counter { 999 } else { 0 };
+                                let bound = fp + to + if fp % 1000 != 0 { 1000 } else if cfg.win == Win::Counter { 999 } else { 0 };
                                 if r.t > bound {
                                     rep.violate(format!("C15:{wname}:rejected-after-timeout"), format!("r{req} arrived t={fp}us, timeout {to}us, rejected at t={}us", r.t));
                                 }
